@@ -62,6 +62,8 @@ type FuncSpec struct {
 	Line      int
 	Props     []string // property ids this contract serves
 	NoBody    bool
+	Thread    string   // "any": may run on a goroutine that races with Shutdown: shared fields are unstable
+	Holds     string   // monitor held at entry and exit (critical section spans the call)
 	Dead      []string // canaries that must be unreachable (proved, not assumed)
 	Callbacks map[string]string // callee expr -> callback contract name
 	CallSites map[string]string // call site -> overriding contract key
@@ -101,7 +103,22 @@ type Pred struct {
 	Src    string
 }
 
+// Monitor: a mutex with the state it protects, its invariant and rely (DESIGN.md 3.6).
+type Monitor struct {
+	Name     string
+	Lock     string   // pkg.Type.field of the sync.Mutex
+	Cond     string   // pkg.Type.field of the sync.Cond bound to it (optional)
+	Protects []string // heap items (resolveHeapItem syntax)
+	Ghost    []string // ghost variables owned by the monitor (havoced at Lock)
+	Shared   []string // unprotected fields written by other threads at any time (DESIGN 3.6)
+	Inv      []Clause // over `s` (the object holding the lock)
+	Rely     []Clause // two-state, over `s` and thread `t`
+	File     string
+	Line     int
+}
+
 type Specs struct {
+	Monitors  map[string]*Monitor
 	GhostVars map[string]string // name -> spec type
 	Preds     map[string]*Pred
 	Funcs     map[string]*FuncSpec
@@ -174,11 +191,11 @@ func parseClause(text, file string, line int) Clause {
 var keywords = map[string]bool{"spec": true, "func": true, "trusted": true, "lemma": true, "requires": true,
 	"ensures": true, "ensures_on_panic": true, "may_panic": true, "modifies": true, "loop": true, "decreases": true,
 	"=": true, "witness": true, "ghost": true, "use": true, "assert": true, "replay_domain": true, "props": true,
-	"uninterpreted": true, "nobody": true, "callback": true, "end": true, "trigger": true, "ghostvar": true, "pred": true, "dead": true, "native": true, "callsite": true}
+	"uninterpreted": true, "nobody": true, "callback": true, "end": true, "trigger": true, "ghostvar": true, "pred": true, "dead": true, "native": true, "callsite": true, "monitor": true, "lock": true, "cond": true, "protects": true, "owns": true, "invariant": true, "rely": true, "holds": true, "shared": true, "thread": true}
 
 // LoadSpecs reads every zz_contracts_verif.go below root plus extra files.
 func LoadSpecs(files []string) *Specs {
-	sp := &Specs{GhostVars: map[string]string{}, Preds: map[string]*Pred{}, Funcs: map[string]*FuncSpec{}, SpecFuncs: map[string]*SpecFunc{}, Lemmas: map[string]*Lemma{}}
+	sp := &Specs{Monitors: map[string]*Monitor{}, GhostVars: map[string]string{}, Preds: map[string]*Pred{}, Funcs: map[string]*FuncSpec{}, SpecFuncs: map[string]*SpecFunc{}, Lemmas: map[string]*Lemma{}}
 	for _, f := range files {
 		sp.loadFile(f)
 	}
@@ -226,6 +243,7 @@ func (sp *Specs) loadFile(file string) {
 	var curF *FuncSpec
 	var curS *SpecFunc
 	var curL *Lemma
+	var curM *Monitor
 	var props []string
 	for _, rl := range lines {
 		t := rl.text
@@ -237,6 +255,34 @@ func (sp *Specs) loadFile(file string) {
 			if curF != nil {
 				curF.Props = props
 			}
+		case "monitor":
+			curF, curS, curL = nil, nil, nil
+			curM = &Monitor{Name: strings.TrimSpace(rest), File: base, Line: rl.line}
+			sp.Monitors[curM.Name] = curM
+		case "lock":
+			curM.Lock = strings.TrimSpace(rest)
+		case "cond":
+			curM.Cond = strings.TrimSpace(rest)
+		case "protects":
+			for _, p := range strings.Split(rest, ",") {
+				curM.Protects = append(curM.Protects, strings.TrimSpace(p))
+			}
+		case "shared":
+			for _, p := range strings.Split(rest, ",") {
+				curM.Shared = append(curM.Shared, strings.TrimSpace(p))
+			}
+		case "thread":
+			mustF(curF, base, rl.line).Thread = strings.TrimSpace(rest)
+		case "owns":
+			for _, p := range strings.Split(rest, ",") {
+				curM.Ghost = append(curM.Ghost, strings.TrimSpace(p))
+			}
+		case "invariant":
+			curM.Inv = append(curM.Inv, parseClause(rest, base, rl.line))
+		case "rely":
+			curM.Rely = append(curM.Rely, parseClause(rest, base, rl.line))
+		case "holds":
+			mustF(curF, base, rl.line).Holds = strings.TrimSpace(rest)
 		case "end":
 			curF, curS, curL = nil, nil, nil
 		case "native":
@@ -261,7 +307,7 @@ func (sp *Specs) loadFile(file string) {
 			sp.Preds[m[3]] = &Pred{Name: m[3], Params: splitParams(m[4]), Body: c.Expr, Src: c.Src}
 			curF, curS, curL = nil, nil, nil
 		case "spec", "uninterpreted":
-			curF, curL = nil, nil
+			curF, curL, curM = nil, nil, nil
 			m := headerRe.FindStringSubmatch(strings.TrimSpace(rest))
 			if m == nil {
 				panic(fmt.Sprintf("%s:%d: bad spec func header %q", base, rl.line, t))
@@ -288,7 +334,7 @@ func (sp *Specs) loadFile(file string) {
 				sp.Trusted = append(sp.Trusted, "lemma "+curL.Name+" ("+base+")")
 			}
 		case "func", "trusted":
-			curS, curL = nil, nil
+			curS, curL, curM = nil, nil, nil
 			hdr := t
 			trusted := false
 			if first == "trusted" {
@@ -468,7 +514,7 @@ func (sp *Specs) loadFile(file string) {
 var knownPkgs = map[string]bool{"strings": true, "bytes": true, "json": true, "errors": true, "fmt": true, "strconv": true,
 	"sync": true, "atomic": true, "time": true, "nats": true, "badger": true, "url": true, "sort": true, "utf8": true,
 	"taskqueue": true, "timerqueue": true, "keylock": true, "res": true, "store": true, "badgerstore": true,
-	"mockstore": true, "resprot": true, "reflect": true, "debug": true, "callback": true, "error": true, "http": true, "xid": true, "os": true, "logger": true}
+	"mockstore": true, "resprot": true, "reflect": true, "debug": true, "callback": true, "error": true, "builtin": true, "http": true, "xid": true, "os": true, "logger": true}
 
 func isQualified(name string) bool {
 	i := strings.Index(name, ".")
